@@ -124,6 +124,36 @@ def render(rec, variant):
     return "\n".join(lines) + "\n"
 
 
+def render_pending(rec, variant):
+    """A second rendering of an accepted one-directive string program: every <n> item names a symbol that is defined only AFTER the
+    directive (so the directive's contents are not known when its size is needed), and the directive is followed by '.even' and a
+    marker byte.  The predicted image is Data.tla's image, the padding '.even' owes at that address, and the marker."""
+    rnd = random.Random(variant)
+    s = rec["prog"][0]
+    items, defs = [], []
+    for j, it in enumerate(s["items"]):
+        if it["k"] == "raw":
+            items.append({"k": "sym", "name": f"fw{j}"})
+            defs.append(f"fw{j} = {spell(it['v'], rnd)}")
+        else:
+            items.append(it)
+    chunks, cur = [], []
+    for it in items:
+        if it["k"] == "sym":
+            if cur:
+                chunks.append(render_string(cur, rnd))
+                cur = []
+            chunks.append("<" + it["name"] + ">")
+        else:
+            cur.append(it)
+    if cur:
+        chunks.append(render_string(cur, rnd))
+    text = "\n".join([".link " + spell(rec["base"], rnd, ["oct", "dec", "0x"]), NAMES[s["d"]] + " " + " ".join(chunks), ".even", ".byte 1"] + defs) + "\n"
+    img = bytes(rec["image"])
+    pad = b"\x00" if (rec["base"] + len(img)) % 2 else b""
+    return text, img + pad + b"\x01"
+
+
 # ---------------------------------------------------------------------------------- real assembler
 def run_case(task):
     src, cs, pred_ok, image = task
@@ -225,6 +255,14 @@ def main(run):
                 last = rec["prog"][-1]
                 meta.append((mode, len(rec["prog"]) + len(last["ops"]) + len(last["items"])))
                 cls[(mode, last["d"], "ok" if ok else "reject")] += 1
+                if (v == 0 and mode == "string" and ok and len(rec["prog"]) == 1 and rec["prog"][0]["d"] in ("ascii", "asciz")
+                        and any(it["k"] == "raw" for it in rec["prog"][0]["items"])):
+                    src2, img2 = render_pending(rec, ((run.seed * 7919 + i) * 16 + k) * 4 + 3)
+                    if (src2, rec["cs"]) not in seen:
+                        seen.add((src2, rec["cs"]))
+                        tasks.append((src2, rec["cs"], True, img2))
+                        meta.append((mode + "-pending", len(last["items"])))
+                        cls[(mode, last["d"] + "-pending", "ok")] += 1
                 if v == 0:
                     run.bump(f"operands={len(last['ops'])}" if last["d"] in ("byte", "db", "word", "dw", "dword", "list") else
                              f"items={len(last['items'])}" if last["d"] in ("ascii", "asciz") else "fill/pad directives")
